@@ -279,9 +279,9 @@ class Ref:
                         bs.append(rawv & 0xff)
                         rawv >>= 8
                     text = "".join(chr(b) for b in bs)
-                    out.append(("{:" + spec[:-1] + "}").format(text))
+                    out.append(format(text, spec[:-1]))
                 else:
-                    out.append(("{:" + spec + "}").format(v))
+                    out.append(format(v, spec))
         return "".join(out)
 
     # ---------------------------------------------------------------------------------------------- driver masks
